@@ -369,12 +369,15 @@ class Sampler(metaclass=value.ABCMetaImplementAnyOneOf):
 
         # Flatten Pauli Sum into one big list of Pauli String
         # Keep track of which Pauli Sum each one was from.
+        # (The same Pauli string may be a term of several sums: it is measured once and counts for
+        # each of them.)
         flat_pstrings: list[cirq.PauliString] = []
-        pstring_to_psum_i: dict[cirq.PauliString, int] = {}
+        pstring_to_psum_is: dict[cirq.PauliString, list[int]] = {}
         for psum_i, pauli_sum in enumerate(pauli_sums):
             for pstring in pauli_sum:
-                flat_pstrings.append(pstring)
-                pstring_to_psum_i[pstring] = psum_i
+                if pstring not in pstring_to_psum_is:
+                    flat_pstrings.append(pstring)
+                pstring_to_psum_is.setdefault(pstring, []).append(psum_i)
 
         # Flatten Circuit Sweep into one big list of Params.
         # Keep track of their indices so we can map back.
@@ -402,8 +405,8 @@ class Sampler(metaclass=value.ABCMetaImplementAnyOneOf):
         nested_results: list[list[float]] = [[0] * len(pauli_sums) for _ in range(len(flat_params))]
         for res in obs_meas_results:
             param_i = circuit_param_to_sweep_i[_hashable_param(res.circuit_params.items())]
-            psum_i = pstring_to_psum_i[res.setting.observable]
-            nested_results[param_i][psum_i] += res.mean
+            for psum_i in pstring_to_psum_is[res.setting.observable]:
+                nested_results[param_i][psum_i] += res.mean
 
         return nested_results
 
